@@ -63,6 +63,17 @@ def MSt.run (stores : List StoreIn) (s : MSt) (acts : List MAct) : MSt := acts.f
 def finalizeRepaired (k : Nat) : List MAct :=
   (List.range k).map MAct.sort ++ (List.range k).map MAct.size ++ (List.range k).map MAct.write
 
+/-- the two loops of `DirectoryPackCreator::finalize` over the entry stores, as the translator extracts them
+    from the source (`Generated.directoryFinalizePhases`) -/
+inductive MPhase where
+  | sortAll      -- `for entry_store in &mut self.entry_stores { entry_store.sort(); }`
+  | sizeAll      -- `self.entry_stores.into_iter().map(|e| e.finalize()).collect()`
+  deriving Repr, DecidableEq
+
+def MPhase.acts (k : Nat) : MPhase → List MAct
+  | .sortAll => (List.range k).map MAct.sort
+  | .sizeAll => (List.range k).map MAct.size
+
 /-- the pinned `finalize` (defect D13): sort and size store after store -/
 def finalizePinned (k : Nat) : List MAct :=
   ((List.range k).map (fun i => [MAct.sort i, MAct.size i])).flatten ++ (List.range k).map MAct.write
